@@ -179,6 +179,14 @@ def packet_families(rng, tier, scale=1.0):
     for T in (255, 256, 257, 512, 4096, 8191, 8192, 8193, 16383):  # incl. targets at the size constants of the library and the largest pointer value
         for b in G.label_at_packets(T):
             out.append(("label-at-%d" % T, b))
+    # lying record counts at the edges of 16 bits, in queries and in responses (sums of two counts wrap at 65536)
+    qh = G.wire_name([b"example", b"com"]) + struct.pack(">HH", 1, 1)
+    for fl in (0x0100, 0x8180):
+        for an in (0, 1, 0x7FFF, 0x8000, 0xFFFE, 0xFFFF):
+            for ns in (0, 1, 0x8000, 0xFFFF):
+                for ar in (0, 1, 0xFFFF):
+                    out.append(("lying-counts", struct.pack(">HHHHHH", 0x1c1c, fl, 1, an, ns, ar) + qh))
+    out.append(("lying-counts", struct.pack(">HHHHHH", 0x1c1c, 0x0100, 1, 0xFFFF, 1, 0) + qh + b"\xc0\x0c" + struct.pack(">HHIH", 1, 1, 5, 4) + b"\1\2\3\4"))
     # pointer chains of mixed shape around the hop limit: runs of pointer-to-pointer steps reached through pointer-to-label steps
     for b in G.mixed_chain_family(thorough=(tier != "quick")):
         out.append(("mixed-chain", b))
@@ -1155,6 +1163,17 @@ class C13(Prop):
                 cases.append(Case("y%d" % k, "Y," + hx(text), {"family": "grid/" + t, "expect": T.wire(r).hex() if ok else None, "reject": L > 251,
                                                                "text": text.decode("latin1")[:200]}))
                 k += 1
+        # the opening parenthesis of SOA directly after the contact name (it ends the name), with final labels at the 62-byte limit
+        for kl in (1, 30, 61, 62):
+            for trailing in (False, True):
+                for pre in ([], [b"host"]):
+                    r = T.rand_record(rng, t="SOA")
+                    r.name, r.name_trailing = [b"a"], True
+                    r.contact = pre + [b"x" * kl]
+                    ftxt = [T.dotted(r.name, True), b"%d" % r.ttl, b"IN", b"SOA", T.dotted(r.ns), T.dotted(r.contact, trailing) + b"(" + b" ".join(b"%d" % n for n in r.nums) + b")"]
+                    text = b" ".join(ftxt)
+                    cases.append(Case("y%d" % k, "Y," + hx(text), {"family": "soa-paren", "expect": T.wire(r).hex(), "text": text.decode("latin1")[:160]}))
+                    k += 1
         # the only type whose data can reach the 16-bit data length: DS digests of 65530 .. 65533 bytes (data = 4 + digest; 65535 is the last
         # length that fits, so 65531 must be accepted and 65532 refused)
         for dl in ((65530, 65531, 65532) if tier == "quick" else (65527, 65528, 65529, 65530, 65531, 65532, 65533, 70000)):
@@ -1847,7 +1866,9 @@ class C08(HistProp):
                 "C09_insert_effect); (iv) HISTORIES (C08_histories, C08_step_keeps_invariant): for every accepted response, any history that "
                 "starts with an insertion or recompute and goes on with any sequence of successful insertions of such records, recomputes, "
                 "set_tid, set_rcode, set_opcode, set_response(true) and set_flags with QR ends with accepted bytes that are a fixed point of "
-                "decompression, the not-compressed flag, and every offset and EDNS field equal to a fresh parse; plus frame/shape lemmas "
+                "decompression, the not-compressed flag, and every offset and EDNS field equal to a fresh parse; (v) the same for histories "
+                "that also delete non-OPT records and set their TTLs through a cursor placed with set_offset + recompute "
+                "(C08_histories_with_cursor, every step applicable where applied); plus frame/shape lemmas "
                 "(C08_insert_shape, C08_header_setters_keep_view); with failing steps tolerated every such history runs to the end without a "
                 "Panic outcome (C08_histories_total). Operations that move the cursor (TTL / address / name setters, deletion, "
                 "cursor decompression), insertion of OPT records or of a question, and histories on synthesised objects are decided each run "
@@ -1896,7 +1917,10 @@ class C09(HistProp):
                 "bytes are accepted, read declaratively as exactly that, and the object's view equals their fresh parse in every field; "
                 "records of accepted packets are such records (C09_accepted_records_insertable). The TTL setter from any state satisfying the "
                 "C08 invariant, cursor on a non-OPT record: a successful set_rr_ttl keeps the invariant and the reading is the old one with "
-                "exactly that TTL replaced, without any hypothesis on names (C09_set_ttl_on_decompressed). Further lemmas: C09_insert_appends (bytes after a successful insert = bytes before with the record spliced at the "
+                "exactly that TTL replaced, without any hypothesis on names (C09_set_ttl_on_decompressed). Deletion from any such state, cursor "
+                "on a non-OPT record of any record section: a successful delete keeps the invariant, the three record lists are the old "
+                "ones with exactly that record removed, only that section's count is lowered, the flag word stays "
+                "(C09_delete_on_decompressed). Further lemmas: C09_insert_appends (bytes after a successful insert = bytes before with the record spliced at the "
                 "end of the section, one count incremented), C09_set_ttl_frame (only 4 bytes change), C09_set_ttl_effect (on a section that reads "
                 "declaratively as records l, after set_rr_ttl t on the k-th cursor the section walk returns the views of l with the k-th TTL "
                 "replaced by t and nothing else changed, PROVIDED no owner name of the section is read through the 4 bytes written; "
@@ -2012,8 +2036,13 @@ class C11(HistProp):
             "Non-trivial: at least one deletion; distinct = distinct (packet, section, subset).")
     strength = ("proved (unbounded, abstract machine): for every section and every set of records chosen for deletion the walk with restart-after-"
                 "delete terminates within (|D|+1)(n+1) yields, never yields a deleted record again, yields every survivor at least once and "
-                "leaves exactly the survivors in order (C11_walk_terminates, C11_walk_exact). PARTIAL: that the concrete cursor code refines "
-                "this machine is decided each run by the correspondence over all subsets of small sections.")
+                "leaves exactly the survivors in order (C11_walk_terminates, C11_walk_exact). Proved for one step of the concrete cursor code "
+                "on a decompressed object: from any state satisfying the C08 invariant a successful delete through a cursor on a non-OPT "
+                "record of any record section removes exactly that record, leaves the cursor void and keeps the invariant "
+                "(C11_delete_removes_the_record_under_the_cursor), section offsets are where the first remaining record starts and an emptied "
+                "section is absent (C11_section_offsets), a second delete reports a void record and changes nothing (C11_second_delete_void). "
+                "PARTIAL: that the walk of the concrete cursor code (next / restart after a delete, compressed packets, the question "
+                "section) refines the abstract machine is decided each run by the correspondence over all subsets of small sections.")
 
     def gen(self, rng, tier):
         import itertools
@@ -2163,6 +2192,20 @@ def plain_messages(rng, n, tier):
                     G.RR(q, 2, 1, 5, ("name", [l1] + q)), G.RR(q, 15, 1, 5, ("mx", 1, [l2] + q))]
             b, _ = G.encode(rng, G.Msg(1, 0x8180, q, 1, 1, an=recs), "none")
             out.append(("near-case-%02x" % c, b))
+    # names of equal wire length that differ in where the label boundaries are: "foo-bar.zone" / "foo.bar.zone" (a character where the
+    # other has a length byte; also with the character EQUAL to that length byte, so that only the first length byte differs), in both
+    # orders, as owners and inside name-bearing data: they are different names and must never share a pointer
+    for l1, l2 in ((b"foo", b"bar"), (b"a", b"b"), (b"x" * 30, b"y" * 31), (b"ab", b"cdefgh")):
+        for c in (0x2d, len(l2), 0x5f):
+            fused = l1 + bytes([c]) + l2
+            if len(fused) > 63 or c < 0x20:
+                continue
+            for order in (0, 1):
+                n1, n2 = ([fused] + q, [l1, l2] + q) if order == 0 else ([l1, l2] + q, [fused] + q)
+                recs = [A(n1, 1), A(n2, 2), A([b"www"] + n2, 3), A([b"www"] + n1, 4), G.RR(q, 2, 1, 5, ("name", n2)), G.RR(q, 15, 1, 5, ("mx", 1, n1)),
+                        G.RR(q, 6, 1, 5, ("soa", n1, n2, bytes(range(20))))]
+                b, _ = G.encode(rng, G.Msg(1, 0x8180, n1 if order else q, 1, 1, an=recs), "none")
+                out.append(("boundary-shift", b))
     # a new suffix first emitted at output offset exactly T, T around the 14-bit pointer limit, then reused: whole name and inner label
     for T in (range(16381, 16389) if tier == "quick" else range(16370, 16400)):
         for inner in (0, 4):
@@ -2576,7 +2619,7 @@ class C16(Prop):
     id = "C16"
     generated = ["Constants", "Ambient"]
     rule = ("H: barrier-scripted interleavings replayed on real threads: each step is either a failing C-table call on thread t "
-            "(raw_name_from_str with four kinds of bad names, add_to_answer with bad text: five distinct messages, chosen so that concurrent "
+            "(raw_name_from_str with four kinds of bad names, add_to_answer with bad text, a second question, a rename to a name starting with NUL - the two longest descriptions the table produces: seven distinct messages, chosen so that concurrent "
             "threads never hold the same message) or error_description on thread t; quick: ALL interleavings of 2 threads x 3 steps and a "
             "random sample of 3-4 thread schedules of 6-14 steps; three schedules with 70, 140 and 4100 live threads (thorough: up to 8200); thorough adds all interleavings of 3 threads x 2 steps and longer random "
             "ones. The strings read must equal the model's. Non-trivial: at least one read happens after a failure of ANOTHER thread that "
@@ -2593,7 +2636,7 @@ class C16(Prop):
         for t in steps:
             if t not in last or rng.random() < 0.55:
                 others = set(v for u, v in last.items() if u != t)
-                kinds = [k for k in range(5) if k not in others]
+                kinds = [k for k in range(7) if k not in others]
                 k = rng.choice(kinds)
                 last[t] = k
                 out.append("%d:f%d" % (t, k))
@@ -2647,12 +2690,14 @@ class C16(Prop):
         toks = o[2:-1].split(" ")
         steps = case.line.split(",")[2].split(".")
         texts = ["Invalid_name_in_a_DNS_record:_Spurious_dot_in_a_label", "Invalid_name_in_a_DNS_record:_Label_too_long",
-                 "Invalid_name_in_a_DNS_record:_Name_too_long", "Invalid_name_in_a_DNS_record:_Non-ASCII_character_in_a_label", "Parse_error"]
+                 "Invalid_name_in_a_DNS_record:_Name_too_long", "Invalid_name_in_a_DNS_record:_Non-ASCII_character_in_a_label", "Parse_error",
+                 "Invalid_DNS_packet:_A_DNS_packet_can_only_contain_up_to_one_question",
+                 "Invalid_name_in_a_DNS_record:_A_non-empty_name_cannot_start_with_a_NUL_byte"]
         last = {}
         for st, tok in zip(steps, toks):
             t, a = st.split(":")
             if a[0] == "f":
-                last[t] = texts[int(a[1:]) % 5]
+                last[t] = texts[int(a[1:]) % 7]
                 if tok != "rc=-1":
                     return "failing table call returned %s instead of -1" % tok
             else:
@@ -2689,7 +2734,7 @@ class C17(Prop):
     rule = ("HP: for each of parse, uncompress, compress, rename and record synthesis: f(x) alone, f(x) after f(y) on the same thread, f(x) "
             "in a context object reused after f(y), and f(x) on 8 threads concurrently with f(y), must all be byte-identical and equal to the "
             "model's f(x). (y, x) pairs are chosen to stress leakage: y fills the 32-entry suffix table / is rejected half-way / caches a "
-            "question / shares suffixes with x / is a rename that fails half-way after writing names whose suffixes x shares; every operation is also run after every other kind of operation. Non-trivial: x is accepted and y differs from x; distinct = distinct (f, x, y).")
+            "question / shares suffixes with x / is a rename that fails half-way after writing names whose suffixes x shares; every operation is also run after every other kind of operation; HL: f(x) on a fresh thread against f(x) on a thread that ran f(y) once and a small f(z) n times, n around 2^8 and 2^16 (counters and epochs that wrap). Non-trivial: x is accepted and y differs from x; distinct = distinct (f, x, y).")
     strength = ("thin: purity of the model is definitional (C17_amb_independent, C17_history_independent), empty packets differ only in "
                 "the transaction id (C17_empty_only_tid_random); the content is the regenerated inventory (ambient_inventory, "
                 "dict_fresh_per_call: no static state other than the thread-local C error slot; rng only in ParsedPacket::empty; a fresh "
@@ -2745,6 +2790,24 @@ class C17(Prop):
             add("small-after-jumbo", "R,%s,%s,%s,1" % (hx(xb), hx(G.wire_name([b"new"])), hx(G.wire_name([b"com"]))),
                 "R,%s,%s,%s,1" % (hx(yb), hx(G.wire_name([b"new"])), hx(G.wire_name([b"example"]))))
             add("small-after-jumbo", "P," + hx(rng.choice(comp)), "P," + hx(yb))
+        # long histories on one thread: f(y) once, f(z) n times with n around 2^8 and 2^16 (generation counters, epochs), then f(x)
+        def long(fam, n, opx, opy, opz):
+            nonlocal k
+            cases.append(Case("p%d" % k, "HL|%d|%s|%s|%s" % (n, opx, opy, opz), {"family": fam}))
+            k += 1
+        zq, _ = G.encode(rng, G.Msg(3, 0x0100, [b"a", b"org"], 1, 1), "none")
+        for n_mid in ((65534, 65535) if tier == "quick" else (254, 255, 256, 257, 65533, 65534, 65535, 65536, 65537, 131070)):
+            tld = rng.choice([b"net", b"com", b"info"])
+            yb, _ = G.encode(rng, G.Msg(7, 0x8180, [b"www", b"example", b"com"], 1, 1,
+                                        an=[A([b"mail", b"test", tld]), A([b"other", b"zone", b"info"], 2)]), "none")
+            xb, _ = G.encode(rng, G.Msg(9, 0x8180, [b"a", b"org"], 2, 1,
+                                        ns=[G.RR([b"a", b"org"], 2, 1, 60, ("name", [b"ns", b"test", tld]))]), "none")
+            long("long-history", n_mid, "C," + hx(xb), "C," + hx(yb), "C," + hx(zq))
+            long("long-history", n_mid, "R,%s,%s,%s,1" % (hx(xb), hx(G.wire_name([b"b", b"org"])), hx(G.wire_name([b"a", b"org"]))),
+                 "C," + hx(yb), "C," + hx(zq))
+            if tier != "quick":
+                long("long-history", n_mid, "C," + hx(rng.choice(plain)), "C," + hx(rng.choice(plain)), "C," + hx(zq))
+                long("long-history", n_mid, "U,%s,12" % hx(rng.choice(comp)), "U,%s,12" % hx(rng.choice(comp)), "P," + hx(zq))
         ops = lambda: rng.choice(["P," + hx(rng.choice(comp)), "U,%s,12" % hx(rng.choice(comp)), "C," + hx(rng.choice(plain)),
                                   "R,%s,%s,%s,1" % (hx(rng.choice(comp + plain)), hx(G.wire_name([b"new", b"name"])), hx(G.wire_name([rng.choice([b"com", b"org", b"example"])])))])
         for i in range(n):
@@ -2764,6 +2827,8 @@ class C17(Prop):
 
     def nontrivial(self, case, io):
         if io and io[0].startswith("SAME:OK"):
+            if case.line.startswith("HL|"):
+                return hash(case.line)
             _, x, y = case.line.split("|")
             return hash(case.line) if x != y else None
         return None
